@@ -172,6 +172,11 @@ def nanfill(chk, prog):
             continue
         v = passed[opt]
         eff = own_defaults.get(v.id) if isinstance(v, ast.Name) and v.id in own_defaults else (v if isinstance(v, ast.Constant) else None)
+        if eff is None and isinstance(v, ast.Name):
+            # a module-level constant
+            for s_ in f.module.tree.body:
+                if isinstance(s_, ast.Assign) and len(s_.targets) == 1 and isinstance(s_.targets[0], ast.Name) and s_.targets[0].id == v.id and isinstance(s_.value, ast.Constant):
+                    eff = s_.value
         site = "%s::%s" % (f.ref, opt)
         if eff is None:
             chk.error("NANFILL.options: slerp_nan passes %s=%s to slerp; its value could not be resolved to a constant (cannot decide)" % (opt, ast.unparse(v)))
